@@ -1,6 +1,8 @@
 (** Executable model of label/label.go (Parse, New, String, Clean, Join, RelativeTo, Split, Parent, Dir),
-    of Go's path.Clean / path.Join / path.IsAbs as used by dawn, and of sourceFile.go's
-    repoSourcePath / sourceLabel and project.go's targetInfoPath.  No proofs in this file. *)
+    of Go's path.Clean / path.Join / path.IsAbs as used by dawn, of sourceFile.go's
+    repoSourcePath / sourceLabel, of the two call sites that turn an accepted path into an OS location
+    (builtin_target's generates= loop and loadSourceFile) and of project.go's targetInfoPath.
+    No proofs in this file. *)
 From Dawn Require Export Base.Bytes.
 
 Record label := mkLabel { l_kind : str; l_project : str; l_package : str; l_name : str }.
@@ -193,6 +195,39 @@ Definition source_label (pkg sp : str) : option label :=
       | (dir, Some base) => new_label source_kind [] (c_slash :: c_slash :: dir) base
       | (_, None) => new_label source_kind [] [c_slash; c_slash] p
       end
+  end.
+
+(** ** Where accepted paths end up on disk (project_builtins.go builtin_target, project.go loadSourceFile)
+
+    [filepath.Join(elem...)] on a '/'-separated OS (and [path.Join]): leading empty elements are skipped,
+    the rest is joined with "/" and cleaned; no non-empty element gives "". *)
+Fixpoint drop_empty (l : list str) : list str :=
+  match l with
+  | [] :: l' => drop_empty l'
+  | _ => l
+  end.
+
+Definition os_join (l : list str) : str :=
+  match drop_empty l with
+  | [] => []
+  | l' => gp_clean (join_with c_slash l')
+  end.
+
+(** generates=[g] in package [pkg] of the project at [root]:
+      path, err := repoSourcePath(pkg, g); components := strings.Split(path, "/");
+      filepath.Join(proj.root, filepath.Join(components...)) *)
+Definition site_gen (root pkg g : str) : option str :=
+  match repo_source_path pkg g with
+  | None => None
+  | Some q => Some (os_join [root; os_join (split_on c_slash q)])
+  end.
+
+(** sources=[g]: label, err := sourceLabel(pkg, g); loadSourceFile(label).path =
+      filepath.Join(proj.root, filepath.Join(label.Split(l.Package)[1:]...), l.Name) *)
+Definition site_src (root pkg g : str) : option str :=
+  match source_label pkg g with
+  | None => None
+  | Some l => Some (os_join [root; os_join (tl (split_pkg (l_package l))); l_name l])
   end.
 
 (** ** url.PathEscape and targetInfoPath *)
